@@ -535,6 +535,10 @@ def build_class(spec: ClassM, base=None, extra_ns=None):
     if pi is not None:
         def __post_init__(self, _pi=pi, _log=log, _serial_no=spec.serial):
             _log.append(id(self))
+            if _pi == 'ok':
+                # a hook that looks at its own instance the way user code does: which fields were given, all fields
+                self.dict(set_only=True)
+                self.dict()
             if _pi == 'raise':
                 raise _POST_INIT_RAISERS[_serial_no % len(_POST_INIT_RAISERS)]()
             if isinstance(_pi, tuple) and _pi[0] == 'raise_if':
